@@ -481,6 +481,10 @@ fn c06_scenarios(tier: Tier) -> Vec<Scenario> {
     }
     alpha.push(Action::RoTx { ops: ro_ops });
     alpha.push(Action::RoCommit);
+    // opening an existing database with another page size is refused and changes nothing
+    for ps in [4096u64, 65536] {
+        alpha.push(Action::OpenWrongPagesize(ps));
+    }
     // commits that report an I/O error before anything reached the header: a call that returns an
     // error changes nothing
     for b in bodies.iter().take(4) {
@@ -496,6 +500,22 @@ fn c06_scenarios(tier: Tier) -> Vec<Scenario> {
     sc.drop_keeps_digest = true;
     sc.bisim_followups = followups;
     out.push(sc);
+    // one header slot torn (as a crash or a short header write leaves it), then commits that fail at
+    // every one of their I/O calls: the slot is wiped before it is written again, and a failure
+    // anywhere in that sequence must leave the committed state readable
+    {
+        let small = vec![OpSpec::put(&["b"], "k0", "v*8")];
+        let mut alpha: Vec<Action> = vec![Action::TearOtherSlot, Action::Reopen, Action::OpenWrongPagesize(16384), Action::OpenWrongPagesize(1032), Action::Tx { ops: small.clone(), commit: true }, Action::Tx { ops: bodies[1].clone(), commit: false }];
+        for call in 0..14 {
+            alpha.push(Action::TxFail { ops: small.clone(), call: 2000 + call });
+        }
+        for call in [1000, 1001, 1002] {
+            alpha.push(Action::TxFail { ops: small.clone(), call });
+        }
+        let or2 = Oracles { rets: true, dump_after: true, fileck: true, dbcheck: true, ..Oracles::NONE };
+        let sc = Scenario::new("torn-slot-failing-commits", Cfg::default(), vec![tx(vec![OpSpec::bucket("create", &[], "b"), OpSpec::put(&["b"], "k0", "w*300"), OpSpec::put(&["b"], "k1", "w*300")]), tx(vec![OpSpec::put(&["b"], "k2", "w*300")])], Box::new(alpha), if q { 3 } else { 4 }, or2);
+        out.push(sc);
+    }
     // the kv alphabet with drops, smaller trees
     let ops = kv_ops(&KV_KEYS[..4], &KV_VALS);
     let mut sc = Scenario::new("kv-drops-m2", Cfg::default(), kv_base(Some("w*300")), Box::new(txs_of(&ops, 2, true, true)), if q { 1 } else { 3 }, or);
